@@ -97,6 +97,9 @@ func genPeer(r *rand.Rand) Peer {
 	}
 }
 
+// ManyPorts enables rules with more than 15 ports of one protocol (C16 only).
+var ManyPorts = false
+
 var portPalette = []Port{{"tcp", 80, true}, {"tcp", 81, true}, {"udp", 53, true}, {"tcp", 443, true},
 	{"udp", 80, true}, {"tcp", 8080, true}}
 
@@ -126,6 +129,23 @@ func genRule(r *rand.Rand, tame bool) Rule {
 			}
 			ru.Peers[i].Except = ex
 		}
+	}
+	if !tame && ManyPorts && r.Intn(100) < 5 {
+		// more ports than one multiport match takes: 16-40 of one protocol, sometimes with a few of the other one
+		proto := pick(r, []string{"tcp", "udp"})
+		for i, n := 0, 16+r.Intn(25); i < n; i++ {
+			ru.Ports = append(ru.Ports, Port{proto, 1000 + 7*i, true})
+		}
+		if r.Intn(2) == 0 {
+			other := "udp"
+			if proto == "udp" {
+				other = "tcp"
+			}
+			for i, n := 0, 1+r.Intn(17); i < n; i++ {
+				ru.Ports = append(ru.Ports, Port{other, 3000 + 3*i, true})
+			}
+		}
+		return ru
 	}
 	if r.Intn(100) >= 40 {
 		for n := 1 + r.Intn(3); n > 0; n-- {
@@ -235,6 +255,15 @@ func Flows(c *Cluster, ps []NetPol) []Flow {
 		if p >= 0 && p <= 65535 && len(ports) < 7 {
 			ports = append(ports, p)
 		}
+	}
+	if len(mentioned) > 5 {
+		// long port lists: first, 15th, 16th, 17th, last and a neighbour (what a chunking of the list could lose)
+		for _, i := range []int{0, 14, 15, 16, len(mentioned) - 1} {
+			if i < len(mentioned) {
+				add(mentioned[i])
+			}
+		}
+		add(mentioned[len(mentioned)-1] + 1)
 	}
 	for _, p := range mentioned {
 		add(p)
